@@ -13,7 +13,7 @@ import ast
 import itertools
 import re
 
-from ..model import AnalysisError, callee, norm, src, walk_no_nested, iter_child_stmts, module_table
+from ..model import AnalysisError, callee, norm, src, walk_no_nested, iter_child_stmts, module_table, kwarg
 from ..absint import Interp, Unsupported, Raises
 from ..cfg import CFG
 
@@ -44,6 +44,7 @@ def run(ctx):
     r54(ctx, m)
     r55(ctx, m)
     r56(ctx)
+    r57(ctx, m)
     # the same predicate is evaluated row-wise when row filtering is on (shared with C13)
     from . import c13
     c13.r131_132(ctx, m)
@@ -424,3 +425,41 @@ def r56(ctx):
     tnames = [n for n in names if n in ('int', 'float', 'pd.Timestamp', 'pd.Timedelta')]
     ctx.ob('R5.6', 'util._val_to_num:narrow-before-wide-conversion-order',
            tnames == ['int', 'float', 'pd.Timestamp', 'pd.Timedelta'], str(tnames), u.loc(f))
+
+
+def r57(ctx, m, rule='R5.7'):
+    """filter_out_cats: the user's constant reaches the comparison unchanged unless it is text to be parsed - a cast
+    of a number to the partition's recorded type (2.5 -> 2) moves the boundary and prunes qualifying partitions"""
+    f = m.func('filter_out_cats')
+    cfg = CFG(f)
+    casts = [st for st in iter_child_stmts(f.body) if isinstance(st, ast.Assign) and norm(st.targets[0]) == 'val'
+             and isinstance(st.value, ast.Call) and callee(st.value) == 'val_to_num' and kwarg(st.value, 'meta', 1) is not None]
+    ctx.ob(rule, 'api.filter_out_cats:typed-parse-of-the-constant-present', len(casts) <= 1, '%d cast sites' % len(casts), m.loc(f))
+    for st in casts:
+        tests = [(e, fld) for e, fld in cfg.enclosing_tests(st) if isinstance(e, ast.If)]
+        guarded = [e for e, fld in tests if any(isinstance(x, ast.Name) and x.id == 'val' for x in ast.walk(e.test))]
+        ok = bool(guarded)
+        detail = 'cast `%s` happens for every kind of constant' % norm(st)
+        if ok:
+            t = guarded[-1].test
+            detail = 'cast guarded by `%s`' % norm(t)
+            # the guard must exclude numbers against numeric partitions: either an isinstance(val, str) style
+            # test, or the negation of a predicate whose definition tests numbers.Real and the numeric kinds
+            txt = norm(t)
+            if 'isinstance(val, str)' in txt or txt == 'text':
+                ok = True
+            else:
+                preds = [callee(c) for c in ast.walk(t) if isinstance(c, ast.Call) and callee(c) in m.funcs]
+                ok = False
+                for pname in preds:
+                    ps = src(m.func(pname))
+                    neg = isinstance(t, ast.UnaryOp) and isinstance(t.op, ast.Not)
+                    if neg and 'numbers.Real' in ps and "'iuf'" in ps.replace('"', "'"):
+                        ok = True
+                detail += '; predicate(s) %s' % preds
+        ctx.ob(rule, 'api.filter_out_cats:numbers-are-not-cast-to-the-partition-type', ok, detail, m.loc(st))
+    # the partition value itself is always typed with the recorded type
+    pv = [st for st in iter_child_stmts(f.body) if isinstance(st, ast.Assign) and norm(st.targets[0]) == 'v0'
+          and isinstance(st.value, ast.Call) and callee(st.value) == 'val_to_num' and kwarg(st.value, 'meta', 1) is not None]
+    ok = len(pv) == 1 and [norm(e.test) for e, fld in cfg.enclosing_tests(pv[0]) if isinstance(e, ast.If)] == ['cat in partition_meta']
+    ctx.ob(rule, 'api.filter_out_cats:partition-value-typed-whenever-its-type-is-recorded', ok, '', m.loc(f))
